@@ -7,7 +7,13 @@
 (* q: no NTT, no Montgomery form.  Polynomials are 1-based sequences of 256 *)
 (* coefficients; byte strings 1-based sequences of 0..255.                  *)
 (***************************************************************************)
-EXTENDS HashOracle, DilithiumMath, DilithiumPack
+EXTENDS HashOracle, DilithiumMath, DilithiumPack, FiniteSets
+
+\* TLC evaluates a function constructor [i \in S |-> e] LAZILY: e is re-evaluated at every application.
+\* Wherever a polynomial is the result of real work and is indexed more than once it is therefore
+\* materialised as a sequence (Append evaluates eagerly); without this a butterfly network costs n^2.
+Idx(n) == [i \in 1..n |-> i]
+Force(f, n) == FoldLeft(LAMBDA acc, i : Append(acc, f[i]), <<>>, Idx(n))
 
 SHAKE128 == 100
 SHAKE256 == 101
@@ -34,7 +40,7 @@ RejEta(stream) ==
            <<>>, [n \in 1..(2 * Len(stream)) |-> n - 1])
 
 \* polyUniformGamma1: the first 640 stream bytes as 256 twenty-bit values v, coefficient 2^19 - v
-Gamma1Poly(stream) == UnpackPoly("z", NN, SubSeq(stream, 1, 640))
+Gamma1Poly(stream) == Force(UnpackPoly("z", NN, SubSeq(stream, 1, 640)), NN)
 
 \* polyChallenge: 60 coefficients +-1; signs from the first 8 stream bytes (bit j of the 64-bit
 \* little-endian word = bit j mod 8 of byte j div 8), positions by rejection b <= i for i = 196..255
@@ -83,27 +89,41 @@ NTTDef(a) == [m \in 1..NN |-> EvalAt(a, EvalPoints[m])]
 Zeta(k) == PowMod(ROOT, Brv8(k))
 ZetaTable == [k \in 1..255 |-> Zeta(k)]
 Layer(a, len) ==
-  [idx \in 1..NN |->
+  Force([idx \in 1..NN |->
      LET i == idx - 1
          blk == i \div (2 * len)
          pos == i % (2 * len)
          z == ZetaTable[(128 \div len) + blk]
      IN IF pos < len THEN (a[idx] + MulMod(z, a[idx + len])) % Q
-        ELSE (a[idx - len] + Q - MulMod(z, a[idx])) % Q]
-NTT(a) == FoldLeft(Layer, [m \in 1..NN |-> a[m] % Q], <<128, 64, 32, 16, 8, 4, 2, 1>>)
+        ELSE (a[idx - len] + Q - MulMod(z, a[idx])) % Q], NN)
+NTT(a) == FoldLeft(Layer, Force([m \in 1..NN |-> a[m] % Q], NN), <<128, 64, 32, 16, 8, 4, 2, 1>>)
+\* the inverse network (Gentleman-Sande, as the reference's invntt without its Montgomery factor):
+\* layer `len` = 1, 2, .., 128; block b of 2*len slots uses -zeta_k with k = 2*(128/len) - 1 - b
+InvLayer(a, len) ==
+  Force([idx \in 1..NN |->
+     LET i == idx - 1
+         blk == i \div (2 * len)
+         pos == i % (2 * len)
+         z == (Q - ZetaTable[2 * (128 \div len) - 1 - blk]) % Q
+     IN IF pos < len THEN (a[idx] + a[idx + len]) % Q
+        ELSE MulMod(z, (a[idx - len] + Q - a[idx]) % Q)], NN)
+InvNTT(ahat) ==
+  LET r == FoldLeft(InvLayer, ahat, <<1, 2, 4, 8, 16, 32, 64, 128>>)
+  IN Force([m \in 1..NN |-> MulMod(Inv256, r[m])], NN)
+
 \* coefficient k (0-based) of NTT^-1(ahat)
 InvNTTAt(ahat, k) ==
   MulMod(Inv256, FoldLeft(LAMBDA acc, m : (acc + MulMod(ahat[m], PowMod(InvPoints[m], k))) % Q, 0, [m \in 1..NN |-> m]))
-PointwiseAcc(acc, a, b) == [m \in 1..NN |-> (acc[m] + MulMod(a[m], b[m])) % Q]
-ZeroPoly == [m \in 1..NN |-> 0]
+PointwiseAcc(acc, a, b) == Force([m \in 1..NN |-> (acc[m] + MulMod(a[m], b[m])) % Q], NN)
+ZeroPoly == Force([m \in 1..NN |-> 0], NN)
 
 \* c * s for the sparse challenge c (entries -1, 0, 1) and small s: all coefficients, as integers
 SparseMul(c, s) ==
   LET nz == SelectSeq([i \in 1..NN |-> i - 1], LAMBDA i : c[i + 1] # 0)
-  IN [k \in 1..NN |->
+  IN Force([k \in 1..NN |->
         FoldLeft(LAMBDA acc, i : LET j == (k - 1) - i
                                  IN acc + (IF j >= 0 THEN c[i + 1] * s[j + 1] ELSE -(c[i + 1] * s[j + NN + 1])),
-                 0, nz)]
+                 0, nz)], NN)
 
 ---------------------------------------------------------------------------
 (* key generation: cryptoSignKeypair(SHAKE256(seed48)[0:32]) *)
@@ -112,25 +132,28 @@ KeySeeds(seed48) ==
   LET e == Hash(SHAKE256, Hash(SHAKE256, seed48, 32), 128)
   IN [rho |-> SubSeq(e, 1, 32), rhoPrime |-> SubSeq(e, 33, 96), key |-> SubSeq(e, 97, 128)]
 
-S1(rhoPrime) == [i \in 1..LL |-> RejEta(EtaStream(rhoPrime, i - 1))]
-S2(rhoPrime) == [i \in 1..KK |-> RejEta(EtaStream(rhoPrime, LL + i - 1))]
+S1(rhoPrime) == Force([i \in 1..LL |-> RejEta(EtaStream(rhoPrime, i - 1))], LL)
+S2(rhoPrime) == Force([i \in 1..KK |-> RejEta(EtaStream(rhoPrime, LL + i - 1))], KK)
 
 \* row i of A-hat times a vector given in the NTT domain: sum_j A-hat[i][j] o vhat[j]
 RowTimes(rho, vhat, i) ==
   FoldLeft(LAMBDA acc, j : PointwiseAcc(acc, MatrixEntry(rho, i, j), vhat[j + 1]), ZeroPoly, [j \in 1..LL |-> j - 1])
+
+\* row i of t = A s1 + s2, all 256 coefficients in [0, q)
+TRow(rho, s1hat, s2, i) == LET p == InvNTT(RowTimes(rho, s1hat, i)) IN [k \in 1..NN |-> (p[k] + s2[i + 1][k]) % Q]
 
 \* t[i][k] = (NTT^-1(sum_j A-hat[i][j] o NTT(s1[j])))[k] + s2[i][k]  mod q   (i, k 0-based)
 TAt(rho, s1hat, s2, i, k) == (InvNTTAt(RowTimes(rho, s1hat, i), k) + s2[i + 1][k + 1]) % Q
 
 \* field layout of the keys
 PkRho(pk) == SubSeq(pk, 1, 32)
-PkT1(pk, i) == UnpackPoly("t1", NN, SubSeq(pk, 33 + 320 * i, 32 + 320 * (i + 1)))          \* i = 0..7
+PkT1(pk, i) == Force(UnpackPoly("t1", NN, SubSeq(pk, 33 + 320 * i, 32 + 320 * (i + 1))), NN)          \* i = 0..7
 SkRho(sk) == SubSeq(sk, 1, 32)
 SkKey(sk) == SubSeq(sk, 33, 64)
 SkTr(sk)  == SubSeq(sk, 65, 96)
-SkS1(sk, i) == UnpackPoly("eta", NN, SubSeq(sk, 97 + 96 * i, 96 + 96 * (i + 1)))           \* i = 0..6
-SkS2(sk, i) == UnpackPoly("eta", NN, SubSeq(sk, 769 + 96 * i, 768 + 96 * (i + 1)))         \* i = 0..7
-SkT0(sk, i) == UnpackPoly("t0", NN, SubSeq(sk, 1537 + 416 * i, 1536 + 416 * (i + 1)))      \* i = 0..7
+SkS1(sk, i) == Force(UnpackPoly("eta", NN, SubSeq(sk, 97 + 96 * i, 96 + 96 * (i + 1))), NN)           \* i = 0..6
+SkS2(sk, i) == Force(UnpackPoly("eta", NN, SubSeq(sk, 769 + 96 * i, 768 + 96 * (i + 1))), NN)         \* i = 0..7
+SkT0(sk, i) == Force(UnpackPoly("t0", NN, SubSeq(sk, 1537 + 416 * i, 1536 + 416 * (i + 1))), NN)      \* i = 0..7
 
 ---------------------------------------------------------------------------
 (* signing *)
@@ -141,9 +164,56 @@ Y(rhoPP, kappa, i) == Gamma1Poly(Gamma1Stream(rhoPP, LL * kappa + i))      \* it
 
 \* signature layout
 SigC(sig) == SubSeq(sig, 1, 32)
-SigZ(sig, i) == UnpackPoly("z", NN, SubSeq(sig, 33 + 640 * i, 32 + 640 * (i + 1)))         \* i = 0..6
+SigZ(sig, i) == Force(UnpackPoly("z", NN, SubSeq(sig, 33 + 640 * i, 32 + 640 * (i + 1))), NN)         \* i = 0..6
 SigHint(sig) == SubSeq(sig, 33 + 640 * LL, 32 + 640 * LL + OMEGA + KK)
 
-PolyAdd(a, b) == [k \in 1..NN |-> a[k] + b[k]]
+PolyAdd(a, b) == Force([k \in 1..NN |-> a[k] + b[k]], NN)
 MaxAbs(p) == FoldLeft(LAMBDA acc, x : IF Abs(x) > acc THEN Abs(x) ELSE acc, 0, p)
+
+---------------------------------------------------------------------------
+(* the complete algorithms, byte for byte *)
+
+Concat(seqs) == FoldLeft(LAMBDA acc, x : acc \o x, <<>>, seqs)
+AHat(rho) == Force([i \in 1..KK |-> Force([j \in 1..LL |-> MatrixEntry(rho, i - 1, j - 1)], LL)], KK)
+RowTimesA(ahatRow, vhat) == FoldLeft(LAMBDA acc, j : PointwiseAcc(acc, ahatRow[j], vhat[j]), ZeroPoly, [j \in 1..LL |-> j])
+
+\* KeyGen(seed48): (pk, sk)
+KeyGen(seed48) ==
+  LET ks == KeySeeds(seed48)
+      A == AHat(ks.rho)
+      s1 == S1(ks.rhoPrime)
+      s2 == S2(ks.rhoPrime)
+      s1hat == Force([j \in 1..LL |-> NTT(s1[j])], LL)
+      t == Force([i \in 1..KK |-> LET p == InvNTT(RowTimesA(A[i], s1hat)) IN Force([k \in 1..NN |-> (p[k] + s2[i][k]) % Q], NN)], KK)
+      t1 == Force([i \in 1..KK |-> Force([k \in 1..NN |-> Power2RoundDef(t[i][k]).hi], NN)], KK)
+      t0 == Force([i \in 1..KK |-> Force([k \in 1..NN |-> Power2RoundDef(t[i][k]).lo], NN)], KK)
+      pk == ks.rho \o Concat([i \in 1..KK |-> PackPoly("t1", t1[i])])
+      tr == Hash(SHAKE256, pk, 32)
+      sk == ks.rho \o ks.key \o tr \o Concat([i \in 1..LL |-> PackPoly("eta", s1[i])])
+               \o Concat([i \in 1..KK |-> PackPoly("eta", s2[i])]) \o Concat([i \in 1..KK |-> PackPoly("t0", t0[i])])
+  IN [pk |-> pk, sk |-> sk]
+
+\* one iteration (kappa = 0, 1, ..) of the signing loop for secret key material and mu / rho''
+SignIteration(A, s1, s2, t0, mu, rhoPP, kappa) ==
+  LET y == Force([i \in 1..LL |-> Y(rhoPP, kappa, i - 1)], LL)
+      yhat == Force([i \in 1..LL |-> NTT(y[i])], LL)
+      w == Force([i \in 1..KK |-> InvNTT(RowTimesA(A[i], yhat))], KK)
+      w1 == Force([i \in 1..KK |-> Force([k \in 1..NN |-> DecomposeDef(w[i][k]).hi], NN)], KK)
+      w0 == Force([i \in 1..KK |-> Force([k \in 1..NN |-> DecomposeDef(w[i][k]).lo], NN)], KK)
+      ct == Hash(SHAKE256, mu \o Concat([i \in 1..KK |-> PackPoly("w1", w1[i])]), 32)
+      c == Challenge(ChallengeStream(ct))
+      z == Force([i \in 1..LL |-> PolyAdd(y[i], SparseMul(c, s1[i]))], LL)
+      maxz == FoldLeft(LAMBDA acc, i : IF MaxAbs(z[i]) > acc THEN MaxAbs(z[i]) ELSE acc, 0, [i \in 1..LL |-> i])
+      r0 == Force([i \in 1..KK |-> LET cs2 == SparseMul(c, s2[i]) IN Force([k \in 1..NN |-> w0[i][k] - cs2[k]], NN)], KK)
+      maxr0 == FoldLeft(LAMBDA acc, i : IF MaxAbs(r0[i]) > acc THEN MaxAbs(r0[i]) ELSE acc, 0, [i \in 1..KK |-> i])
+      ct0 == Force([i \in 1..KK |-> SparseMul(c, t0[i])], KK)
+      maxct0 == FoldLeft(LAMBDA acc, i : IF MaxAbs(ct0[i]) > acc THEN MaxAbs(ct0[i]) ELSE acc, 0, [i \in 1..KK |-> i])
+      hint == Force([i \in 1..KK |-> {k - 1 : k \in {x \in 1..NN : MakeHintDef(r0[i][x] + ct0[i][x], w1[i][x]) = 1}}], KK)
+      nh == FoldLeft(LAMBDA acc, i : acc + Cardinality(hint[i]), 0, [i \in 1..KK |-> i])
+      exit == IF maxz >= GAMMA1 - BETA THEN 1
+              ELSE IF maxr0 >= GAMMA2 - BETA THEN 2
+              ELSE IF maxct0 >= GAMMA2 THEN 3
+              ELSE IF nh > OMEGA THEN 4 ELSE 0
+  IN [exit |-> exit, ct |-> ct, z |-> z, hint |-> hint, maxz |-> maxz, maxr0 |-> maxr0, maxct0 |-> maxct0, nh |-> nh]
+
 =============================================================================
